@@ -1,16 +1,9 @@
 /- Tie T, one fact per module so that a change of one textual fact breaks only the properties that rest on it (see CosetProofs/Ties.lean). -/
-import CosetGen.Iana
-import CosetGen.Facts
-import CosetGen.Inventory
-import CosetRef.PinnedFacts
+import CosetProofs.Ties.SitesDef
 namespace Coset.Ties
 
-/-- `g` is covered by `p`: every (module, function, kind) of `g` occurs in `p` with at least that many sites. -/
-def sitesCovered (g p : List (String × String × String × Nat)) : Bool :=
-  g.all fun x => p.any fun y => x.1 == y.1 && x.2.1 == y.2.1 && x.2.2.1 == y.2.2.1 && decide (x.2.2.2 ≤ y.2.2.2)
-
 /-- F8: the syntactic panic sites (unwrap / expect / panic! / assert! / unreachable! / remove / index / len-subtraction …) per function:
-    the current source has **no site that the transcribed tree did not have** (C01 is "never panics": a site that disappeared —
+    the current source has **no site beyond the transcribed tree's, per module and kind** (C01 is "never panics": a site that disappeared —
     a positional `remove` rewritten with iterators, say — cannot hurt it; a new one, or one more of a kind in a function, breaks this).
     The documented panics, whose *presence* matters (C03–C05, C19), are tied separately (builder methods, recipient guards) and
     exercised by the correspondence. -/
